@@ -413,9 +413,17 @@ func genPath(r *rng.R) (*canvas.Path, string) {
 				p.LineTo(coord(), coord())
 			}
 		case c < 11:
-			p.QuadTo(coord(), coord(), coord(), coord())
+			if r.P(1, 5) {
+				p.QuadTo(coord(), coord(), pos.X, pos.Y) // out and back: ends where it starts, the control point elsewhere
+			} else {
+				p.QuadTo(coord(), coord(), coord(), coord())
+			}
 		case c < 13:
-			p.CubeTo(coord(), coord(), coord(), coord(), coord(), coord())
+			if r.P(1, 5) {
+				p.CubeTo(coord(), coord(), coord(), coord(), pos.X, pos.Y) // a loop back to its start
+			} else {
+				p.CubeTo(coord(), coord(), coord(), coord(), coord(), coord())
+			}
 		case c < 17 && !huge:
 			rx, ry := g(8*r.Range(1, 12)), g(8*r.Range(1, 12))
 			rot := rng.Pick(r, []float64{0, 0, 30, 45, 90, 120, 135, 179, 60})
